@@ -42,39 +42,53 @@ EXPECTED_METRICS = {
 }
 
 
-def _eval_cond(c: Any, A: bool, B: bool) -> Any:
-    """Evaluate a condition term over the two atoms isinstance(out, Tensor) (A) and
-    out.is_floating_point() (B); None if it mentions anything else."""
-    import sympy as _sp
+def _atom_kind(c: Any) -> Any:
+    """'A' for isinstance(out, Tensor), 'B' for out.is_floating_point(), else the atom's text."""
+    if isinstance(c, T):
+        if c.op == "isinstance" and "Tensor" in fmt(c):
+            return "A"
+        if "is_floating_point" in fmt(c) and c.op in ("truth", "method", "callv", "call"):
+            return "B"
+    return fmt(c)
 
+
+def _atoms(c: Any, out: set) -> None:
+    if isinstance(c, T) and c.op in ("not", "and", "or"):
+        for x in c.args:
+            _atoms(x, out)
+    elif not isinstance(c, bool):
+        out.add(_atom_kind(c))
+
+
+def _eval_cond(c: Any, val: Dict[str, bool]) -> Any:
     if isinstance(c, bool):
         return c
-    if isinstance(c, T):
-        if c.op == "not":
-            v = _eval_cond(c.args[0], A, B)
-            return None if v is None else (not v)
-        if c.op in ("and", "or"):
-            vs = [_eval_cond(x, A, B) for x in c.args]
-            if any(v is None for v in vs):
-                return None
-            return all(vs) if c.op == "and" else any(vs)
-        if c.op == "isinstance":
-            return A if "Tensor" in fmt(c) else None
-        if c.op == "truth":
-            return B if "is_floating_point" in fmt(c) else None
-        if "is_floating_point" in fmt(c) and c.op in ("method", "callv"):
-            return B
-    return None
+    if isinstance(c, T) and c.op == "not":
+        v = _eval_cond(c.args[0], val)
+        return None if v is None else (not v)
+    if isinstance(c, T) and c.op in ("and", "or"):
+        vs = [_eval_cond(x, val) for x in c.args]
+        if any(v is None for v in vs):
+            return None
+        return all(vs) if c.op == "and" else any(vs)
+    return val.get(_atom_kind(c))
 
 
-def _leaf_for(v: Any, A: bool, B: bool) -> Any:
-    """Select the leaf of a gated value under an assignment of the two atoms."""
+def _leaf_for(v: Any, val: Dict[str, bool]) -> Any:
+    """Select the leaf of a gated value under an assignment of the condition atoms."""
     while isinstance(v, Gamma):
-        t = _eval_cond(v.cond, A, B)
+        t = _eval_cond(v.cond, val)
         if t is None:
             return ("?", fmt(v.cond))
         v = v.a if t else v.b
     return v
+
+
+def _gamma_atoms(v: Any, out: set) -> None:
+    if isinstance(v, Gamma):
+        _atoms(v.cond, out)
+        _gamma_atoms(v.a, out)
+        _gamma_atoms(v.b, out)
 
 
 def check(report: Report, repo: Repo) -> None:
@@ -186,12 +200,29 @@ def check(report: Report, repo: Repo) -> None:
         if len(sup) != 1:
             report.add("R2-producer", cons, False, "run_node must compute the node exactly once via super().run_node(n)", len(sup), 1)
             continue
-        # decide the returned value for each truth assignment of the two predicate atoms
+        # decide the returned value for each truth assignment of the two predicate atoms; any further
+        # condition the code consults must not change the outcome (the wrap decision is a function of the
+        # float-tensor predicate alone)
+        import itertools as _it
+
+        atoms: set = set()
+        _gamma_atoms(r, atoms)
+        extras = sorted(atoms - {"A", "B"})
         table = {}
+        depends = []
         for A_ in (True, False):
             for B_ in (True, False):
-                leaf = _leaf_for(r, A_, B_)
-                table[(A_, B_)] = TM.term_of(leaf) if not (isinstance(leaf, tuple) and leaf and leaf[0] == "?") else leaf
+                seen_ = []
+                for combo in _it.product((True, False), repeat=min(len(extras), 6)):
+                    val = {"A": A_, "B": B_, **dict(zip(extras, combo))}
+                    leaf = _leaf_for(r, val)
+                    seen_.append(TM.term_of(leaf) if not (isinstance(leaf, tuple) and leaf and leaf[0] == "?") else leaf)
+                table[(A_, B_)] = seen_[0]
+                if any(x != seen_[0] for x in seen_[1:]):
+                    depends.append((A_, B_))
+        if depends:
+            report.add("R2-producer", f"{cons}::predicate", False, "whether the produced value is wrapped must depend on the float-tensor predicate alone; it also depends on: " + "; ".join(extras), {str(k): fmt(table[k]) for k in depends}, "wrap iff (Tensor, float)")
+            continue
         wrap_ok = len(ag) >= 1 and all(e["cls"].qualname == tracker and TM.term_of(e["args"][0]) == out_t for e in ag)
         wrap_terms = [e["result"].term for e in ag]
         okc = all(not (isinstance(v, tuple) and v and v[0] == "?") for v in table.values())
@@ -229,4 +260,58 @@ def check(report: Report, repo: Repo) -> None:
             report.add("R4-shim", f"{cons}::delegate", okd, "delegates to the original forward with unchanged arguments", fmt(r), "old_forward(x, idx, k=y)")
     except Unsupported as ex:
         report.add("R4-shim", cons, None, f"outside fragment: {ex}")
+    # ---------------- R5 the other torch.fx.Interpreter hooks: an override may observe, never alter
+    import ast as _ast
+
+    HOOKS = ("placeholder", "get_attr", "call_function", "call_method", "call_module", "output", "fetch_attr", "fetch_args_kwargs_from_env", "map_nodes_to_values", "run", "boxed_run")
+    n_hooks = 0
+    for rel, cname in ((TS, "ScaleTrackingInterpreter"), (UT, "ScaleTrackingInterpreter")):
+        it5 = Interp(repo)
+        cls = it5.get_global(rel, cname)
+        if not isinstance(cls, ClassV):
+            continue
+        for st in cls.node.body:
+            if not isinstance(st, _ast.FunctionDef) or st.name not in HOOKS:
+                continue
+            n_hooks += 1
+            cons = f"{rel}::{cname}.{st.name}"
+            fn = it5.class_attr(cls, st.name)
+            selfv = Obj(cname, cls=cls, attrs={"scales": {}}, term=T("param", ("self",)))
+            pn = [a.arg for a in st.args.args][1:]
+            argv = [Obj("value", term=T("param", (a,))) for a in pn]
+            try:
+                it5.events = []
+                r = it5.call_function(fn, [selfv, *argv], {})
+            except Unsupported as ex:
+                report.add("R5-hooks", cons, None, f"outside fragment: {ex}")
+                continue
+            sup = [e for e in it5.events if e.kind == "super" and e["method"] == st.name]
+            # every value the override can return is either unrelated to the value torch computed (a constant,
+            # a looked-up function) or that value itself -- never something derived from it
+            bad_leaves = []
+            for _g, leaf in TM.leaves(r):
+                lt = TM.term_of(leaf)
+                derived = any(isinstance(x, T) and x.op == "super" and x.args[0] == st.name for x in TM.walk(lt))
+                if derived and not (isinstance(lt, T) and lt.op == "super" and lt.args[0] == st.name):
+                    bad_leaves.append(fmt(lt))
+            report.add("R5-hooks", cons, not bad_leaves, f"an override of Interpreter.{st.name} must hand on super().{st.name}(...) itself, not a value derived from it (tracking is observational)", bad_leaves or fmt(r)[:200], f"super().{st.name}(...)")
+            eff = [e for e in it5.events if e.kind == "inplace" or (e.kind == "callv" and isinstance(TM.term_of(e["callee"]), T) and TM.term_of(e["callee"]).op == "attr" and str(TM.term_of(e["callee"]).args[1]).endswith("_") and not str(TM.term_of(e["callee"]).args[1]).endswith("__"))]
+            report.add("R5-hooks", f"{cons}::effects", not eff, f"an override of Interpreter.{st.name} must not modify the values flowing through the graph (no in-place method such as requires_grad_())", [e.get("op") or fmt(e["callee"]) for e in eff], [])
+    report.note("interpreter_hook_overrides", n_hooks)
+    # ---------------- R6 what is reported: a recorded statistic of 0 is a statistic, only None means "none recorded"
+    it6 = Interp(repo)
+    pcls = it6.get_global(UT, "ScalePair")
+    cons = f"{UT}::ScalePair.__str__"
+    try:
+        for a_, b_, want in ((sp.Integer(0), None, (True, False)), (sp.Rational(3, 2), sp.Integer(0), (True, True)), (None, None, (False, False))):
+            o = it6.call_function(pcls, [a_, b_], {})
+            txt = it6.call_function(it6.class_attr(pcls, "__str__"), [o], {})
+            if not isinstance(txt, str) or "<-" not in txt:
+                report.add("R6-display", cons, None, f"printed form is not statically known: {fmt(txt)}")
+                continue
+            left, right = txt.split("<-", 1)
+            shown = ("n/a" not in left, "n/a" not in right)
+            report.add("R6-display", cons, shown == want, f"ScalePair(forward={a_}, backward={b_}) prints a number for every recorded scale (0 included) and 'n/a' only for None", txt, "number iff not None")
+    except Unsupported as ex:
+        report.add("R6-display", cons, None, f"outside fragment: {ex}")
     report.floor("obligations", len(report.obls), 25)
